@@ -82,7 +82,8 @@ def case(draw):
             pre.append(["ed", "$a", "tfull"])
         pre += [["e", f, True] for f in FILES[1:16]]
         steps = pre + steps[:20]
-    return {"files": files, "steps": steps}
+    # a quarter of the histories end with autowrite set before the :q: every modified buffer is then written to ITS file and the editor exits
+    return {"files": files, "steps": steps, "awq": draw(st.integers(0, 3)) == 0}
 
 
 # ---- the same isolation through vi mode: the vi shortcuts (^^ zj zk zD), :e / :b typed at the vi prompt, vi edits, and the per-buffer
@@ -659,7 +660,7 @@ def run_case(env, c):
     script = ["se noaw\nse nowa\n"]
     for i, s in enumerate(c["steps"]):
         script.append("%s\nec @@B%d@@\nb\nec @@C%d@@\n.=\nec @@D%d@@\n%%w! snap%d\n" % (cmd_text(s), i, i, i, i))
-    script.append("q\nec @@ALIVE@@\nb\nec @@E@@\n")
+    script.append(("se aw\n" if c.get("awq") else "") + "q\nec @@ALIVE@@\nb\nec @@E@@\n")
     r = runner.run_editor(env.paths["vi"], ["-s", "-e", "f0"], "".join(script).encode() + runner.EX_TRAILER, d, want_stats=False)
     if r.timeout:
         return Outcome(True, False, ["timeout"], inconclusive=True)
@@ -720,6 +721,18 @@ def run_case(env, c):
             m.disk[cb.path] = cb.ed.text()
     alive = "@@ALIVE@@" in out
     dirty = [b for b in m.bufs if b.modified()]
+    if c.get("awq"):
+        if alive:
+            return fail(":q with autowrite set did not exit (%d modified buffers)" % len(dirty), len(c["steps"]))
+        for b in dirty:
+            m.disk[b.path] = b.ed.text()
+        for path, ls in m.disk.items():
+            got = runner.read_file(d, path)
+            if got != gen.to_bytes(ls):
+                return fail("after :q with autowrite the file %r does not hold %s" % (path, "the text of its modified buffer" if any(b.path == path for b in dirty) else "what it held before"),
+                            len(c["steps"]), got=got, want=gen.to_bytes(ls))
+        nt = len(m.bufs) >= 3 and len(dirty) >= 1 and any(b is not m.cur() for b in dirty)
+        return Outcome(True, nt, ["awq", "awq_dirty_%d" % min(len(dirty), 3)] + (["awq_noncurrent_dirty"] if any(b is not m.cur() for b in dirty) else []))
     if bool(dirty) != alive:
         return fail(":q %s although %d buffer(s) are modified" % ("refused" if alive else "exited", len(dirty)), len(c["steps"]))
     if alive:
